@@ -65,6 +65,8 @@ STM = {
     'KRE': ("c15.known.c = @sc/unkref()", 'bind', 'c15.known', {'c': P('unkref', True)}, ['unkref']),
     'KRN': ("c15.known.c = [1, {'k': (@unkref2(),)}]", 'bind', 'c15.known', {'c': [1, {'k': (P('unkref2', True),)}]},
             ['unkref2']),
+    'KRD': ("c15.known.b = {@unkref(): 1, 'lit': 2}", 'bind', 'c15.known', {'b': {P('unkref', True): 1, 'lit': 2}},
+            ['unkref']),       # the unknown reference is a dict KEY
     'KRK': ("c15.known.b = @c15.g()", 'bind', 'c15.known', {'b': ('REF', 'c15.g', True)}, []),
     'KRKS': ("c15.known.c = [@a/b/c15.g(), @a/c15.g, (@x/y/z/c15.g(),)]", 'bind', 'c15.known',
              {'c': [('REF', 'c15.g', True), ('REF', 'c15.g', False), (('REF', 'c15.g', True),)]}, []),
@@ -148,7 +150,7 @@ def canon_real(v):
   if isinstance(v, tuple):
     return tuple(canon_real(x) for x in v)
   if isinstance(v, dict):
-    return {k: canon_real(x) for k, x in v.items()}
+    return {canon_real(k): canon_real(x) for k, x in v.items()}
   return v
 
 
@@ -158,7 +160,7 @@ def has_placeholder(v):
   if isinstance(v, (list, tuple)):
     return any(has_placeholder(x) for x in v)
   if isinstance(v, dict):
-    return any(has_placeholder(x) for x in v.values())
+    return any(has_placeholder(x) for x in v.values()) or any(has_placeholder(k) for k in v)
   return False
 
 
